@@ -48,6 +48,23 @@ add('duplicate-member-names', 'decl', 'struct r13 { int a; int a; };')
 add('static-after-extern', 'decl', 'extern int r14; static int r14;', blockok=False)
 add('function-declared-incompatibly', 'decl', 'int r15(int); int r15(long);')
 add('function-return-type-mismatch', 'decl', 'int r16(void); long r16(void);')
+# function types that differ only in the number of parameters, in both directions and in every position a function type can occur
+add('function-redeclared-more-parameters', 'decl', 'int r17(int); int r17(int, int);')
+add('function-redeclared-fewer-parameters', 'decl', 'int r18(int, int); int r18(int);')
+add('function-redeclared-void-then-one', 'decl', 'int r19(void); int r19(int);')
+add('function-redeclared-one-then-void', 'decl', 'int r20(int); int r20(void);')
+add('function-defined-more-parameters', 'decl', 'int r21(int); int r21(int a, int b) { return a + b; }', blockok=False)
+add('function-defined-fewer-parameters', 'decl', 'int r22(int, int); int r22(int a) { return a; }', blockok=False)
+add('function-redeclared-variadic-added', 'decl', 'int r23(int); int r23(int, ...);')
+add('function-redeclared-variadic-dropped', 'decl', 'int r24(int, ...); int r24(int);')
+add('function-pointer-parameter-more-parameters', 'decl', 'void r25(int (*)(int)); void r25(int (*)(int, int));')
+add('function-pointer-parameter-fewer-parameters', 'decl', 'void r26(int (*)(int, int)); void r26(int (*)(int));')
+add('function-pointer-object-more-parameters', 'decl', 'extern int (*r27)(int); extern int (*r27)(int, long);')
+add('function-pointer-assign-more-parameters', 'stmt', 'int (*fp1)(int) = 0; int (*fp2)(int, int) = fp1;')
+add('function-pointer-assign-fewer-parameters', 'stmt', 'int (*fp3)(int, int) = 0; int (*fp4)(int) = fp3;')
+add('function-returning-pointer-to-function-more-parameters', 'decl', 'int (*r28(void))(int); int (*r28(void))(int, int);')
+add('function-redeclared-last-parameter-type', 'decl', 'int r29(int, int, long); int r29(int, int, int);')
+add('function-redeclared-first-parameter-type', 'decl', 'int r30(long, int, int); int r30(int, int, int);')
 # --- assignment / lvalues / const
 add('assign-to-const', 'stmt', 'cconst = 2;')
 add('assign-to-const-member', 'stmt', 'const struct cs k1 = {0}; k1.m = 1;')
